@@ -96,10 +96,120 @@ func (c *FnCtx) evalCall(env *Env, x *ast.CallExpr) Val {
 	fv := c.eval(env, x.Fun)
 	if sig, ok := c.subst(fv.Typ).Underlying().(*types.Signature); ok {
 		args := c.evalArgs(env, x, sig)
+		if id, isId := fun.(*ast.Ident); isId && c.C != nil && len(c.frames) == 1 {
+			if fp := c.C.FnParams[id.Name]; fp != nil {
+				if _, isVar := info.ObjectOf(id).(*types.Var); isVar && len(fp.Params) == len(args) && sig.Results().Len() == 1 {
+					// call through a function-typed parameter with a `fnparam` contract: the
+					// callee is side-effect free as far as the contract says; result constrained
+					res := c.freshVal("fp_"+id.Name, sig.Results().At(0).Type(), env.st)
+					c.assume(env.st, c.fnParamClause(env.st, fp, args, res))
+					return res
+				}
+			}
+		}
 		return c.opaqueCall(env, "funcvalue", sig, args, x, true)
 	}
 	c.unsup(x, "call of %T", fun)
 	return Val{}
+}
+
+// fnParamClause evaluates the contract of a function-typed parameter for concrete arguments and
+// result.
+func (c *FnCtx) fnParamClause(st *State, fp *FnParamSpec, args []Val, res Val) string {
+	m := map[string]Val{"ret": res}
+	for i, p := range fp.Params {
+		m[p] = args[i]
+	}
+	var pkg *types.Package
+	if ct := c.fnParamOwner(fp); ct != nil {
+		if p := c.E.All[ct.PkgPath]; p != nil {
+			pkg = p.Types
+		}
+	}
+	env := &Env{st: st, spec: true, old: st, spkg: pkg, lookup: func(n string) (Val, bool) { v, ok := m[n]; return v, ok }}
+	return c.eval(env, fp.Clause.Expr).T
+}
+
+func (c *FnCtx) fnParamOwner(fp *FnParamSpec) *Contract {
+	for _, ct := range c.E.Contracts {
+		if ct.FnParams[fp.Name] == fp {
+			return ct
+		}
+	}
+	return nil
+}
+
+// fnParamObligations: at a call of a function whose contract has `fnparam` clauses, the
+// function passed for each such parameter must be a declared function that satisfies the clause
+// for all arguments and modifies nothing.  Its body is inlined from the real source on a scratch
+// copy of the state.
+func (c *FnCtx) fnParamObligations(env *Env, fn *types.Func, ct *Contract, x *ast.CallExpr) {
+	if len(ct.FnParams) == 0 || c.noSafety {
+		return
+	}
+	sig := fn.Type().(*types.Signature)
+	_, pn, _ := c.paramNames(fn, ct)
+	for i, p := range pn {
+		fp := ct.FnParams[p]
+		if fp == nil || i >= len(x.Args) {
+			continue
+		}
+		lbl := fmt.Sprintf("%s#%d:%s", shortKey(ct.Key), c.callN[ct.Key], fp.Name)
+		arg := unparen(x.Args[i])
+		var id *ast.Ident
+		switch a := arg.(type) {
+		case *ast.Ident:
+			id = a
+		case *ast.SelectorExpr:
+			id = a.Sel
+		case *ast.IndexExpr:
+			if ai, ok := unparen(a.X).(*ast.Ident); ok {
+				id = ai
+			}
+		}
+		var target *types.Func
+		if id != nil {
+			target, _ = c.info().ObjectOf(id).(*types.Func)
+		}
+		if target == nil {
+			c.oblige(env.st, "fnparam", lbl, "false", "argument for "+fp.Name+" is not a declared function", false, x)
+			continue
+		}
+		fi := c.E.ByObj[target.Origin()]
+		if fi == nil || fi.Decl == nil || fi.Decl.Body == nil {
+			c.oblige(env.st, "fnparam", lbl, "false", "no source for "+target.Name(), false, x)
+			continue
+		}
+		if mods := c.E.modOfFunc(c, fi); len(mods) > 0 {
+			c.oblige(env.st, "fnparam", lbl+":pure", "false", target.Name()+" modifies state", false, x)
+			continue
+		}
+		targs := c.instTargs(id)
+		// parameter types of the passed function, instantiated
+		tsig := target.Type().(*types.Signature)
+		if it, ok := c.info().Instances[id]; ok {
+			if s, ok := it.Type.(*types.Signature); ok {
+				tsig = s
+			}
+		}
+		_ = sig
+		scratch := env.st.clone()
+		var fargs []Val
+		for j := 0; j < tsig.Params().Len(); j++ {
+			fargs = append(fargs, c.freshVal("fa_"+fp.Name, c.subst(tsig.Params().At(j).Type()), scratch))
+		}
+		if len(fargs) != len(fp.Params) || tsig.Results().Len() != 1 {
+			c.oblige(env.st, "fnparam", lbl, "false", "arity mismatch for "+fp.Name, false, x)
+			continue
+		}
+		senv := &Env{st: scratch, old: env.old, lookup: env.lookup, spkg: env.spkg}
+		res := c.inlineCall(senv, target, nil, fargs, x, targs)
+		if scratch.dead() {
+			continue
+		}
+		g := c.fnParamClause(scratch, fp, fargs, res)
+		c.oblige(scratch, "fnparam", lbl, g, fp.Clause.Src, fp.Clause.Try, x)
+	}
 }
 
 func (c *FnCtx) instTargs(id *ast.Ident) []types.Type {
@@ -791,6 +901,7 @@ func (c *FnCtx) applyContract(env *Env, fn *types.Func, ct *Contract, recv *Val,
 	st := env.st
 	sig := fn.Type().(*types.Signature)
 	c.checkRequires(env, fn, ct, recv, args, x)
+	c.fnParamObligations(env, fn, ct, x)
 	old := st.clone()
 	// frame
 	if ct.AssignsGiven {
